@@ -80,8 +80,13 @@ func runC08_4(c *core.Ctx) {
 			if x, y, op, ok := flow.Cmp(e.Cond); ok && flow.IsNil(f.Info, y) && isErrorType(f.Info.TypeOf(x)) && (op == token.NEQ) == e.Sense {
 				in |= fFailed
 			}
-			// err == EAGAIN (any named error value) also says that the call failed
-			if l, r, eq, ok := flow.Equality(e); ok && eq && isErrorType(f.Info.TypeOf(l)) && !flow.IsNil(f.Info, r) && flow.ObjOf(f.Info, r) != nil {
+		}
+		// as an if or as a case of `switch err`: err == EAGAIN (any named error value) says that the call failed, and so does err != nil
+		if l, r, eq, ok := flow.Equality(e); ok && isErrorType(f.Info.TypeOf(l)) {
+			if eq && !flow.IsNil(f.Info, r) && flow.ObjOf(f.Info, r) != nil {
+				in |= fFailed
+			}
+			if !eq && flow.IsNil(f.Info, r) {
 				in |= fFailed
 			}
 		}
